@@ -121,6 +121,10 @@ Definition sstep_core (w : sworld) (o : op) (cs : list N) : sworld * wout :=
   | OLazyInsert _ h _ | OLazyRemove _ h => (w, match hget (s_hs w) h with Some _ => WUnit | None => WSkip end)
   | OLazyInsertAll _ l => (w, match hget_all (s_hs w) (map fst l) with Some _ => WUnit | None => WSkip end)
   | OLazyExec _ => (w, WUnit)
+  | OJoin k ms =>
+      let '(e', j) := env_join (s_env w) (l_view (s_life w)) (eids_of (l_entities (s_life w))) (s_hs w) k ms in
+      (s_with_env w e', WJoin j)
+  | OCs c => let '(e', r) := env_csop (s_env w) (s_hs w) c in (s_with_env w e', cs_out r)
   | OBad => (w, WSkip)
   end.
 
